@@ -344,3 +344,55 @@ func depositScriptMax(r *Run) int {
 	}
 	return max
 }
+
+// Added after round-2 seeds C26-4 and C26-6.
+func init() {
+	extend("C26", func(r *Run) {
+		r.Rule("C26.every-input", "every intended UTXO becomes an input: no iteration of an input loop can go on to the next element without adding its input", 1)
+		r.Rule("C26.wallet-script", "the wallet's own output script hashes the 33-byte compressed public key", 1)
+		for _, an := range []string{"assembleDepositSweepTransaction", "assembleMovedFundsSweepTransaction", "assembleRedemptionTransaction"} {
+			fn := r.W.Fn("pkg/tbtc", an)
+			if fn == nil {
+				continue
+			}
+			for _, l := range Loops(fn) {
+				// loops that add inputs
+				var adds []ssa.CallInstruction
+				for _, c := range Sites(fn, `^pkg/bitcoin\.TransactionBuilder\.Add(ScriptHash|PublicKeyHash)Input$`, false) {
+					if l.Blocks[c.Block()] {
+						adds = append(adds, c)
+					}
+				}
+				if len(adds) == 0 {
+					continue
+				}
+				ok := len(adds) == 1
+				if ok {
+					// from the loop body's first block, the header cannot be reached again without passing the add
+					for _, s := range l.Header.Succs {
+						if l.Blocks[s] && s != adds[0].Block() && reachesAvoiding(s, l.Header, adds[0].Block()) {
+							ok = false
+						}
+					}
+				}
+				r.Cond(ok, "C26.every-input", FnName(fn)+"#loop@"+abbr(Desc(loopSourceOrNil(l)), 1), adds[0].Pos(), "each element of the ranged list reaches the input-adding call (or fails the whole assembly); none is skipped")
+			}
+		}
+		if fn := r.MustFn("C26.wallet-script", "pkg/bitcoin", "PublicKeyHash"); fn != nil {
+			ok := false
+			for _, c := range Sites(fn, `^builtin:copy$`, false) {
+				ok = Desc(c.Common().Args[1]) == "call:github.com/btcsuite/btcutil.Hash160(call:crypto/elliptic.MarshalCompressed(P0.Curve, P0.X, P0.Y))" && strings.HasSuffix(Desc(c.Common().Args[0]), "[:]")
+			}
+			r.Cond(ok, "C26.wallet-script", FnName(fn), fn.Pos(), "hash160 of elliptic.MarshalCompressed(curve, X, Y) — the fixed-width encoding (a hand-rolled one loses leading zero bytes of X)")
+		}
+	})
+	witness(Witness{Prop: "C26", Name: "deposit-skipped-silently", File: "pkg/tbtc/deposit_sweep.go",
+		Old: "\t\terr = builder.AddScriptHashInput(deposit.Utxo, depositScript)", New: "\t\tif i > 0 && deposit.Utxo.Value == deposits[0].Utxo.Value {\n\t\t\tcontinue\n\t\t}\n\t\terr = builder.AddScriptHashInput(deposit.Utxo, depositScript)", Rule: "C26.every-input"})
+}
+
+func loopSourceOrNil(l *Loop) ssa.Value {
+	if s := loopSource(l.Header); s != nil {
+		return s
+	}
+	return l.Header.Instrs[0].(ssa.Value)
+}
